@@ -166,6 +166,37 @@ def Prog.expected (p : Prog) : List Instr :=
   p.lines.map (·.1.instr) ++
     (if p.batch.isEmpty then [] else p.batch.map (·.1.pre) ++ [.halt] ++ p.batch.map (·.1.post))
 
+/-! ### programs in general form: batches of menu lines anywhere between the regular lines -/
+
+/-- a (possibly empty) batch of menu lines, the regular line that ends it, and the regular lines after that -/
+structure Seg where
+  batch : List (BLine × Layout)
+  first : SLine × Layout
+  rest : List (SLine × Layout)
+
+/-- any number of such stretches, then a (possibly empty) batch at the very end -/
+structure ProgN where
+  segs : List Seg
+  last : List (BLine × Layout)
+
+def batchToks (b : List (BLine × Layout)) : List Tok := b.flatMap fun x => lineToks x.1.words x.2
+def linesToks (l : List (SLine × Layout)) : List Tok := l.flatMap fun x => lineToks x.1.words x.2
+
+def Seg.toks (s : Seg) : List Tok := batchToks s.batch ++ linesToks (s.first :: s.rest)
+
+def ProgN.toks (p : ProgN) : List Tok := p.segs.flatMap Seg.toks ++ batchToks p.last
+
+def ProgN.source (p : ProgN) : Bytes := text p.toks
+
+/-- the documented expansion of one batch (nothing for an empty one) -/
+def batchExpected (b : List (BLine × Layout)) : List Instr :=
+  if b.isEmpty then [] else b.map (·.1.pre) ++ [.halt] ++ b.map (·.1.post)
+
+def Seg.expected (s : Seg) : List Instr := batchExpected s.batch ++ (s.first :: s.rest).map (·.1.instr)
+
+/-- every batch expands where it stands, with its own lines only -/
+def ProgN.expected (p : ProgN) : List Instr := p.segs.flatMap Seg.expected ++ batchExpected p.last
+
 /-! ### the domain on which the assembler is faithful -/
 
 /-- a name the lexer reads as one `Sym` token and the format can hold: first character a lower-case letter
@@ -220,5 +251,12 @@ def SafeLayout (l : Layout) : Prop :=
 
 def SafeProg (p : Prog) : Prop :=
   (∀ x ∈ p.lines, SafeLine x.1 ∧ SafeLayout x.2) ∧ (∀ x ∈ p.batch, SafeBLine x.1 ∧ SafeLayout x.2)
+
+def SafeBatch (b : List (BLine × Layout)) : Prop := ∀ x ∈ b, SafeBLine x.1 ∧ SafeLayout x.2
+def SafeLines (l : List (SLine × Layout)) : Prop := ∀ x ∈ l, SafeLine x.1 ∧ SafeLayout x.2
+
+def SafeSeg (s : Seg) : Prop := SafeBatch s.batch ∧ SafeLines (s.first :: s.rest)
+
+def SafeProgN (p : ProgN) : Prop := (∀ s ∈ p.segs, SafeSeg s) ∧ SafeBatch p.last
 
 end Vise.AsmSpec
